@@ -726,3 +726,14 @@ RULES = [
     ("C01.R8", "T2", "reader state is reset before a session's first await (a pre-empted session is dropped without clean-up)", r8),
     ("C01.R9", "T2/T8", "list unlink, echo buffer provenance and header-iteration termination (shared with C03.R10, C05.R3, C09.R6): their failure modes are a panic or a spin", r9),
 ]
+
+
+def r10(ctx):
+    """'never ... wedge an endpoint': the discard-mode recovery loop of the link parser makes progress on every iteration - it
+    resets the parser on every retry and skips a byte exactly when the failed frame began in this call (C06.R7, shared code). A retry
+    that leaves the state and the cursor as they were re-runs the same failing parse forever."""
+    import c06
+    c06.r7(ctx)
+
+
+RULES.append(("C01.R10", "T2-loop", "the link parser's discard-mode retry loop makes progress on every iteration (shared with C06.R7)", r10))
